@@ -47,6 +47,10 @@ pub struct ScaleOut {
     pub build_ms: u128,
     pub collect_ms: u128,
     pub collect_cpu_us: u64,
+    pub small_before_cpu_us: u64,
+    pub small_after_cpu_us: u64,
+    pub small_before_bytes: u64,
+    pub small_after_bytes: u64,
 }
 
 fn counters() -> [usize; 9] {
@@ -91,6 +95,13 @@ pub fn run(shape: &str, n: usize, seed: u64) -> ScaleOut {
                 if i % 3 == 0 {
                     extra.push((i, i));
                 }
+            }
+        }
+        "sharedleaf" => {
+            // every ring member (0..n-1) also adopts one shared object (n-1) that adopts nothing
+            // itself: it is reached once per adopter but must be expanded only once
+            for i in 0..n - 1 {
+                extra.push((i, n - 1));
             }
         }
         _ => {}
@@ -158,7 +169,18 @@ pub fn run(shape: &str, n: usize, seed: u64) -> ScaleOut {
             build_ms,
             collect_ms,
             collect_cpu_us,
+            small_before_cpu_us: 0,
+            small_after_cpu_us: 0,
+            small_before_bytes: 0,
+            small_after_bytes: 0,
         };
+    }
+    // the shared leaf is not part of the ring; its outside handle goes away now (the members'
+    // recorded handles keep it alive)
+    let n_all = n;
+    let n = if shape == "sharedleaf" { n - 1 } else { n };
+    if shape == "sharedleaf" {
+        drop(hs[n_all - 1].take());
     }
     // ring edges: record all adoptions while every handle is alive ...
     for i in 0..n {
@@ -195,7 +217,7 @@ pub fn run(shape: &str, n: usize, seed: u64) -> ScaleOut {
     let collect_ms = t1.elapsed().as_millis();
     let c1 = counters();
     ScaleOut {
-        n,
+        n: n_all,
         pairs: pairs.len(),
         loopbacks,
         edges,
@@ -209,6 +231,10 @@ pub fn run(shape: &str, n: usize, seed: u64) -> ScaleOut {
         build_ms,
         collect_ms,
         collect_cpu_us,
+        small_before_cpu_us: 0,
+        small_after_cpu_us: 0,
+        small_before_bytes: 0,
+        small_after_bytes: 0,
     }
 }
 
@@ -237,10 +263,42 @@ pub fn thread_cpu_us() -> u64 {
     0
 }
 
+/// Collect `count` two-object cycles; returns (cpu microseconds, bytes requested from the allocator).
+fn small_cycles(count: usize) -> (u64, u64) {
+    let b0 = crate::alloc::bypass_bytes();
+    let c0 = thread_cpu_us();
+    for _ in 0..count {
+        let a = Rc::new(Big { out: RefCell::new(Vec::new()) });
+        let b = Rc::new(Big { out: RefCell::new(Vec::new()) });
+        unsafe {
+            Rc::adopt_unchecked(&a, &b);
+            Rc::adopt_unchecked(&b, &a);
+        }
+        a.out.borrow_mut().push(Rc::clone(&b));
+        b.out.borrow_mut().push(Rc::clone(&a));
+        drop(a);
+        drop(b);
+    }
+    (thread_cpu_us() - c0, crate::alloc::bypass_bytes() - b0)
+}
+
+/// "aftermath": the cost of collecting small groups must not depend on how large a group was
+/// collected earlier in the same process.
+pub fn run_aftermath(n: usize, seed: u64) -> ScaleOut {
+    let (cpu_before, bytes_before) = small_cycles(400);
+    let mut o = run("ring", n, seed);
+    let (cpu_after, bytes_after) = small_cycles(400);
+    o.small_before_cpu_us = cpu_before;
+    o.small_after_cpu_us = cpu_after;
+    o.small_before_bytes = bytes_before;
+    o.small_after_bytes = bytes_after;
+    o
+}
+
 pub fn run_on_small_stack(shape: String, n: usize, seed: u64, stack_kib: usize) -> Result<ScaleOut, String> {
     let h = std::thread::Builder::new()
         .stack_size(stack_kib * 1024)
-        .spawn(move || run(&shape, n, seed))
+        .spawn(move || if shape == "aftermath" { run_aftermath(n, seed) } else { run(&shape, n, seed) })
         .map_err(|e| format!("spawn: {}", e))?;
     h.join().map_err(|_| "scale thread panicked".to_string())
 }
